@@ -277,7 +277,7 @@ func httpCase(in caseIn, name string) {
 	small := r.Chance(60)
 	kind := r.Intn(3)
 	chunked := r.Chance(35)
-	if in.BodyB64 != "" {
+	if in.Explicit {
 		small, kind, chunked = in.Small, in.HKind, in.Chunked
 	}
 	hd := getHTTPDaemon(small, r)
@@ -333,7 +333,7 @@ func httpCase(in caseIn, name string) {
 		cls = "binary-" + cls
 		url += "/mpub?topic=" + topic + "&binary=true"
 	}
-	if in.BodyB64 != "" {
+	if in.Explicit {
 		body, _ = base64.StdEncoding.DecodeString(in.BodyB64)
 		intent, want = 2, nil
 		if kind == 1 {
